@@ -52,6 +52,9 @@ def analyse_method(repo, res, prop, cname, fi, directed, writer_names, trusted=(
     for val in valuations(fi.node, with_strings=True):
         ma = MethodAnalysis(repo, fi, directed, val, trusted_params=trusted, writer_methods=writer_names, cname=cname)
         ma.helper_post = lambda m, cname=cname: helper_postcondition(repo, cname, m, directed, writer_names)
+        # a private helper analysed on its own (no caller of this class inlined it): that a key parameter is not yet
+        # present is its callers' obligation, discharged where the helper is inlined
+        ma.assume_new_keys = fi.name.startswith("_") and not fi.name.startswith("__")
         try:
             ma.run()
         except Infeasible:
@@ -83,6 +86,18 @@ def analyse_method(repo, res, prop, cname, fi, directed, writer_names, trusted=(
                 role=f"{cname}:{a}{sign}",
             )
             res.add(f)
+        # ---- an entry created earlier in this very call is replaced by a fresh one
+        for (t, kterm, cst) in ma.cover_clobbers:
+            key = ("R-INC", "clobber", getattr(cst, "lineno", 0))
+            res.inst("R-INC", f"{cname}.{fi.name}:{getattr(cst, 'lineno', 0)} store cannot replace an entry created earlier in the call [{vdesc}]", False)
+            if key in seen:
+                continue
+            seen.add(key)
+            res.add(mk_finding(
+                prop, "R-INC", fi, cst,
+                f"{cname}.{fi.name}: `{' '.join(ast.unparse(cst).split())[:70]}` stores a fresh empty entry under an ID that an earlier loop of the same call may already have created (the test for presence was taken before that loop ran); the memberships recorded for it in between are dropped while the other table keeps them [{vdesc}]",
+                role=f"{cname}:clobber",
+            ))
         # ---- raise points
         for rp in ma.raises:
             if rp.callee is not None and not callee_may_raise(repo, cname, rp.callee, rp.validated, directed, writer_names):
